@@ -50,7 +50,9 @@ pub fn run(scn: &str, pb: Option<u64>, res: &mut PartResult) {
             stderr[idx..].lines().take(3).collect::<Vec<_>>().join(" ")
         }).unwrap_or_else(|| stderr.lines().rev().take(5).collect::<Vec<_>>().join(" | "));
         let core = msg.split(".rs:").nth(1).map(|s| s.splitn(2, ' ').nth(1).unwrap_or(s).to_string()).unwrap_or(msg.clone());
-        let sig = if msg.contains("Causality violation") || msg.contains("Concurrent") {
+        let sig = if let Some(i) = msg.find("sig=") {
+            msg[i + 4..].split(':').next().unwrap_or("loom-failure").trim().to_string()
+        } else if msg.contains("Causality violation") || msg.contains("Concurrent") {
             "unsynchronized-cell-access".to_string()
         } else {
             slug(core.trim_start_matches(|c: char| c == ':' || c.is_ascii_digit() || c == '\n' || c == ' '))
